@@ -1221,7 +1221,15 @@ func (c *Canonicalizer) NormalizeOperand(v ssa.Value, context ssa.Instruction) s
 
 	switch operand := v.(type) {
 	case loop.SCEV:
-		return operand.StringWithRenamer(c.renamerFunc())
+		str := operand.StringWithRenamer(c.renamerFunc())
+		// Two induction variables of different loops can have the same start and step:
+		// tag the recurrence with its loop (canonical header name) so they stay distinct.
+		if addRec, ok := operand.(*loop.SCEVAddRec); ok && addRec.Loop != nil {
+			if id, ok := c.blockMap[addRec.Loop.Header]; ok {
+				str += "@" + id
+			}
+		}
+		return str
 	case *ssa.Const:
 		if c.Policy.ShouldAbstract(operand, context) {
 			return fmt.Sprintf("<%s_literal>", sanitizeType(operand.Type()))
